@@ -73,6 +73,7 @@ struct Shared {
     readers_checked: AtomicUsize,
     excluded_kf: AtomicUsize,
     excluded_kf12: AtomicUsize,
+    excluded_kf102: AtomicUsize,
     /// operations completed by all programs / programs that have finished
     ops_done: AtomicUsize,
     finished: AtomicUsize,
@@ -348,6 +349,7 @@ fn run_prog(t: usize, db: Database, mut slots: Vec<Option<Slot>>, ops: Vec<Op>, 
                     // whose owner is inside an operation that may be relocating it) since their creation.
                     {
                         let start_at_creation = region.meta().start();
+                        let (rcs0, rcf0) = (sh.compact_started.load(Ordering::SeqCst), sh.compact_finished.load(Ordering::SeqCst));
                         let reader = region.create_reader();
                         let l = reader.len();
                         if owner != t {
@@ -379,6 +381,15 @@ fn run_prog(t: usize, db: Database, mut slots: Vec<Option<Slot>>, ops: Vec<Op>, 
                                 sh.reader_across_relocation.store(true, Ordering::Relaxed);
                             }
                             if sh.world.lock().unwrap().regions.get(&uid).is_some_and(|h| h.tainted) {
+                                break;
+                            }
+                            // KF-C10-2 (known finding): a Reader does not keep compact() from punching the part
+                            // of its region that the owner truncated away after the Reader was created.
+                            // Excluded: the byte clause is skipped for a Reader whose region was shorter than
+                            // the Reader's snapshot at some point of its lifetime while a compaction ran.
+                            let compacted = sh.compact_started.load(Ordering::SeqCst) > rcs0 || rcs0 > rcf0;
+                            if compacted && versions.iter().any(|v| v.len() < l) && kf::active("KF-C10-2") {
+                                sh.excluded_kf102.fetch_add(1, Ordering::Relaxed);
                                 break;
                             }
                             if (pending || start_now != start_at_creation) && owner != t && kf::active("KF-C10-1") {
@@ -493,6 +504,11 @@ pub fn run_case(case: &Case, obs: &mut Obs) -> Result<(), String> {
     obs.count("scheduling_points", out.points as u64);
     obs.count("context_switches", out.switches as u64);
     obs.count("reader_verifications", sh.readers_checked.load(Ordering::Relaxed) as u64);
+    let ex102 = sh.excluded_kf102.load(Ordering::Relaxed);
+    if ex102 > 0 {
+        obs.exclude("KF-C10-2");
+        *obs.excluded.get_mut("KF-C10-2").unwrap() += ex102 as u64 - 1;
+    }
     let ex12 = sh.excluded_kf12.load(Ordering::Relaxed);
     if ex12 > 0 {
         obs.exclude("KF-C12-1");
